@@ -33,8 +33,9 @@
 (* against the real library.                                               *)
 (*                                                                         *)
 (* KeyedOutputsAreAFunction is the property as an ACTION property over the *)
-(* explicit history `evs` (Rng!ExtendsFunction): the output of the call    *)
-(* just made equals the output of every earlier call of the same (routine, *)
+(* explicit history Events(hist, outs) (Rng!ExtendsFunction): the output   *)
+(* of the call just made equals that of every earlier call of the same     *)
+(* (routine,                                                               *)
 (* operator, key), whatever calls of other dtypes / shapes / keys came in  *)
 (* between.  It is the design-level theorem for the disciplined routines:  *)
 (* keyed / fixed draws through a randn that restores the global state and  *)
@@ -46,7 +47,7 @@
 (***************************************************************************)
 EXTENDS Integers, Sequences, FiniteSets, Json, TLC, RngModel
 
-VARIABLES g, out, hist, verd, mode, memo, evs
+VARIABLES g, out, hist, verd, mode, memo, outs
 
 SeqToSet(s) == {s[i]: i \in DOMAIN s}
 RoutineSet == SeqToSet(RM_Routines)
@@ -79,7 +80,7 @@ Init == /\ mode \in 1..NModes
         /\ hist = <<>>
         /\ verd = <<>>
         /\ memo = "none"
-        /\ evs = <<>>
+        /\ outs = <<>>
 
 (* All behaviours are explored; of the longest ones every mod-th is printed for replay (1 = all).  The          *)
 (* selection depends on the last action through 13 * i, so for mod coprime to 13 every behaviour one shorter    *)
@@ -91,28 +92,32 @@ SelectedLeaf ==
     \/ md.mod = 1
     \/ (WSum(hist, 1) + 13 * hist[Len(hist)] + md.res) % md.mod = 0
 
+(* the explicit history: event j = action hist[j] with the value outs[j] it returned ("" for user actions) *)
 NoEvent == [call |-> FALSE, r |-> "", op |-> "", k |-> 0, o |-> ""]
+EventAt(h, os, j) ==
+    LET a == RM_Acts[h[j]] IN
+    IF a.t = "call" THEN [call |-> TRUE, r |-> a.r, op |-> a.op, k |-> a.k, o |-> os[j]] ELSE NoEvent
+Events(h, os) == [j \in 1..Len(h) |-> EventAt(h, os, j)]
 
 Step(i) ==
     LET a == RM_Acts[i] IN
-    /\ i \in ModeActs(mode)
     /\ Len(hist) < RM_Modes[mode].maxlen
     /\ hist' = Append(hist, i)
     /\ UNCHANGED mode
     /\ CASE a.t = "draw" -> /\ R!UserDraw /\ verd' = Append(verd, <<TRUE, TRUE>>)
-                            /\ UNCHANGED memo /\ evs' = Append(evs, NoEvent)
+                            /\ UNCHANGED memo /\ outs' = Append(outs, "")
          [] a.t = "seed" -> /\ R!UserSeed(a.s) /\ verd' = Append(verd, <<TRUE, TRUE>>)
-                            /\ UNCHANGED memo /\ evs' = Append(evs, NoEvent)
+                            /\ UNCHANGED memo /\ outs' = Append(outs, "")
          [] a.t = "call" ->
               LET m == Mech(a.r, a.op, a.k) IN
               /\ g' = m[1]
               /\ out' = R!Remember(out, a.r, a.op, a.k, m[2])
               /\ verd' = Append(verd, <<R!CallOkGlobal(g, m[1]), R!CallOkDeterministic(out, a.r, a.op, a.k, m[2])>>)
               /\ memo' = IF RM_RandnStateless \/ RM_Disc[a.r] = "global" THEN memo ELSE <<a.op, a.k>>
-              /\ evs' = Append(evs, [call |-> TRUE, r |-> a.r, op |-> a.op, k |-> a.k, o |-> m[2]])
+              /\ outs' = Append(outs, m[2])
 
-Next == \E i \in 1..NActs: Step(i)
-vars == <<g, out, hist, verd, mode, memo, evs>>
+Next == \E j \in 1..Len(RM_Modes[mode].acts): Step(RM_Modes[mode].acts[j])
+vars == <<g, out, hist, verd, mode, memo, outs>>
 Spec == Init /\ [][Next]_vars
 
 Disciplined(r) == RM_RandnRestores /\ RM_RandnStateless /\ RM_Disc[r] \in {"keyed", "fixed"}
@@ -121,18 +126,21 @@ Disciplined(r) == RM_RandnRestores /\ RM_RandnStateless /\ RM_Disc[r] \in {"keye
 (* probe shapes and keys: the call just appended returns what every earlier call of the same (routine,         *)
 (* operator, key) returned, and leaves g alone - for every disciplined routine (design-level theorem).         *)
 KeyedOutputsAreAFunction ==
-    [][LET e == evs'[Len(evs')] IN
-       (e.call /\ Disciplined(e.r)) => (R!ExtendsFunction(evs, e) /\ g' = g)]_vars
+    [][LET e == EventAt(hist', outs', Len(hist')) IN
+       (e.call /\ Disciplined(e.r)) => (R!ExtendsFunction(Events(hist, outs), e) /\ g' = g)]_vars
 
 (* ... and as a state predicate over the whole history, when every routine that was called is disciplined *)
 HistoryIsAFunction ==
+    LET evs == Events(hist, outs) IN
     (\A j \in 1..Len(evs): evs[j].call => Disciplined(evs[j].r)) => R!FunctionOfRoutineOperatorKey(evs)
 
-(* distinct keys / operators are NOT forced equal: the mechanism model keeps them apart (sensitivity of the model) *)
+(* distinct keys / operators are NOT forced equal: the mechanism model keeps them apart (sensitivity of the     *)
+(* model: the call just made differs from every earlier call of the same keyed routine in another slot)        *)
 ModelSeparatesSlots ==
-    \A i, j \in 1..Len(evs):
-        (evs[i].call /\ evs[j].call /\ evs[i].r = evs[j].r /\ RM_Disc[evs[i].r] = "keyed" /\ ~R!SameSlot(evs[i], evs[j]))
-            => evs[i].o # evs[j].o
+    [][LET e == EventAt(hist', outs', Len(hist'))
+           evs == Events(hist, outs) IN
+       (e.call /\ RM_Disc[e.r] = "keyed") =>
+            \A j \in 1..Len(evs): (evs[j].call /\ evs[j].r = e.r /\ ~R!SameSlot(evs[j], e)) => evs[j].o # e.o]_vars
 
 (* design-level result, verdict form (the verdicts are what the harness compares with the code) *)
 DisciplineSound ==
